@@ -75,8 +75,16 @@ class SequenceBasedRoutingProblem(RoutingProblem):
         except IndexError:
             pass
 
+    def _problem_changed(self):
+        """ Variables, objective and constraints have to be rebuilt """
+        self.variables_enumerated = False
+        self.objective_built = False
+        self.lin_con_built = False
+        self.quad_con_built = False
+
     def set_max_sequence_length(self, max_sequence_length):
         """ Set the maximum length of a route/sequence of moves """
+        self._problem_changed()
         self.max_sequence_length = int(max_sequence_length)
         return
 
@@ -85,6 +93,7 @@ class SequenceBasedRoutingProblem(RoutingProblem):
         Set the maximum number of vehicles available
         May be less than self.estimate_max_vehicles()
         """
+        self._problem_changed()
         self.max_vehicles = max_vehicles
         self.vehicle_cost = [0]*max_vehicles
         return
@@ -124,6 +133,7 @@ class SequenceBasedRoutingProblem(RoutingProblem):
         Return:
             added (bool): whether arc was added or not
         """
+        self._problem_changed()
         i = self.get_node_index(origin_name)
         if self.strict and i != 0:
             j = self.get_node_index(destination_name)
